@@ -219,3 +219,34 @@ def scan_run(shape: str, n0: int, n1: int, n2: int, n3: int, n4: int, n5: int,
     p.scanner = load_scanner(p, shape, [n0, n1, n2, n3, n4, n5])
     got = [int(l[0]) for l in p.next()]
     return (got, p.scan_count, list(p.variables.get("s", [])))
+
+
+# ------------------------------------------------------------------ O3 a second parse() replaces the scan part
+REPARSE = {"1>3": ("[1]", "[3]", [3]), "1-2>5": ("[1-2]", "[5]", [5]), "*>2": ("[*]", "[2]", [2]), "2>0-1": ("[2]", "[0-1]", [0, 1]), "3>*": ("[3]", "[*]", [0, 1, 2, 3, 4, 5, 6])}
+
+
+def reparse_oracle(pair, b1, b2, b3, b5):
+    blanks = [False, b1, b2, b3, False, b5, False]
+    want = [i for i in REPARSE[pair][2] if not blanks[i]]
+    return (want, len(want))
+
+
+@ob(
+    "C02",
+    "O3-reparse",
+    post="_ == reparse_oracle(pair, b1, b2, b3, b5)",
+    bound="one CsvPath instance parses a csvpath and then a second one with a different scan part (pairs per shard), then runs over "
+    "7 stub records with symbolic blank flags: the lines offered are those the second scan part denotes",
+    outside="other pairs of scan parts",
+    encodes=ENC + ["csvpath/csvpath.py:CsvPath.parse (a fresh Scanner per parse)"],
+    tiers={"quick": {"timeout": 600, "shards": product(pair=list(REPARSE))}},
+)
+def reparse_run(pair: str, b1: bool, b2: bool, b3: bool, b5: bool) -> Tuple[List[int], int]:
+    blanks = [False, b1, b2, b3, False, b5, False]
+    recs = [[] if blanks[i] else [str(i)] for i in range(NREC)]
+    first, second, _ = REPARSE[pair]
+    p, pr = fresh("$SYM%s[ yes() ]" % first, recs)
+    with NoTracing():
+        p.parse("$SYM%s[ yes() ]" % second)
+    got = [int(l[0]) for l in p.next()]
+    return (got, p.scan_count)
